@@ -78,6 +78,44 @@ func VerifC14Response(k int) {
 	}
 }
 
+// VerifC14Reuse: ONE size_limit middleware instance serves two responses in a
+// row (any sizes 0..6 in <= 2 writes each, any limit 1..4). Each exchange is
+// judged on its own: within the limit it passes through unchanged, above it the
+// client never gets more than the limit - whatever the previous exchange on the
+// same instance did (pooled or cached per-instance state must not leak).
+func VerifC14Reuse() {
+	limit := verifrt.IntRange("max_response_body", 1, 4)
+	mw, err := newSizeLimitMiddleware("size_limit", map[string]interface{}{"max_response_body": limit})
+	verifrt.Assert(err == nil, "a positive limit is accepted")
+	var sizes [2]int
+	cur := 0
+	h := mw(http.HandlerFunc(func(w http.ResponseWriter, r *http.Request) {
+		w.Header().Set("Content-Type", "text/plain")
+		n := sizes[cur]
+		first := n
+		if n > 1 && verifrt.Bool("twoWrites") {
+			first = 1
+		}
+		if first > 0 {
+			w.Write([]byte(verifPayload[:first]))
+		}
+		if n > first {
+			w.Write([]byte(verifPayload[first:n]))
+		}
+	}))
+	for i := 0; i < 2; i++ {
+		cur = i
+		sizes[i] = verifrt.Choice("bodySize", 7)
+		rec := verifNewRecorder()
+		h.ServeHTTP(rec, verifRequest())
+		rec.finish()
+		verifrt.Assert(len(rec.body) <= limit, "the client never receives more than max_response_body bytes (request after request)")
+		if sizes[i] <= limit {
+			verifrt.Assert(rec.status == http.StatusOK && string(rec.body) == verifPayload[:sizes[i]], "an exchange within the limit passes through unchanged, whatever the previous exchange on the same plugin instance did")
+		}
+	}
+}
+
 // verifBody is a request body of n bytes delivered in chunks.
 type verifBody struct {
 	left   int
